@@ -421,6 +421,23 @@ SANCTIONED_GLOBALS = {
 }
 
 
+def _fork_registry(ctx: Ctx):
+    """The sanctioned registry by role (its name is private and may change): the module-level name the fork runner's
+    __init__ stores its hand-over record into under `self.uuid`."""
+    try:
+        fr = ctx.P.cls('runners.process.ForkProcessRunner')
+    except AnalysisError:
+        return None
+    init = fr.methods.get('__init__')
+    if init is None:
+        return None
+    for n in walk_local(init.node):
+        if isinstance(n, ast.Assign) and isinstance(n.targets[0], ast.Subscript) and isinstance(n.targets[0].value, ast.Name) \
+                and n.targets[0].value.id in init.module.consts and 'uuid' in src(n.targets[0].slice):
+            return ('runners.process', n.targets[0].value.id)
+    return None
+
+
 @rule('SUPPORT.NO-PROCESS-GLOBAL-STATE', ['C01', 'C02', 'C03', 'C04', 'C05', 'C06', 'C08', 'C10', 'C11', 'C16', 'C17'])
 def no_process_global_state(ctx: Ctx):
     """Scheduler, runner, executor and cache objects are created per run and die with it: no module-level container in lab.py,
@@ -457,7 +474,7 @@ def no_process_global_state(ctx: Ctx):
                 continue
             n += 1
             key = f'{rel}.{name}'
-            ok = key in SANCTIONED_GLOBALS
+            ok = key in SANCTIONED_GLOBALS or (rel, name) == _fork_registry(ctx)
             yield ctx.ob('SUPPORT.NO-PROCESS-GLOBAL-STATE', ok, writers[0][0], writers[0][1], f'module-level `{name}` written by {writers[0][0].short}',
                          '' if ok else f'`{name}` is a module-level container that `{src(writers[0][1])[:60]}` fills at run time: what one run (one Lab / runner / '
                          'executor configuration) leaves there is seen by every later run in the process', construct=f'global:{key}')
